@@ -57,7 +57,19 @@ func init() {
 		"encoding/csv.NewReader":                        libNewCSVReader,
 		"(*encoding/csv.Reader).Read":                   libCSVRead,
 		"sort.Slice":                                    libSortSlice,
+		"(*sync.WaitGroup).Add":                         libSyncNoop,
+		"(*sync.WaitGroup).Done":                        libSyncNoop,
+		"(*sync.WaitGroup).Wait":                        libSyncNoop,
 	}
+}
+
+// sync.WaitGroup methods: no effect in the sequential model (arguments evaluated)
+func libSyncNoop(x *Exec, n *ast.CallExpr, recv *Val, recvExpr ast.Expr, st *State, env *Env) Val {
+	for _, a := range n.Args {
+		x.evalQuiet(a, st, env)
+	}
+	x.c.notes["sync.WaitGroup is opaque: Add/Done/Wait are no-ops in the sequential model"] = true
+	return Val{}
 }
 
 func libNoop(x *Exec, n *ast.CallExpr, recv *Val, recvExpr ast.Expr, st *State, env *Env) Val {
